@@ -1,3 +1,303 @@
 import ViaProofs.Statements
+/-
+  C08 — what the encoders produce, the library's own receivers accept unchanged.
+
+  Proved here: number round trips (`to_hex_string` / `from_hex_string`, `std::to_string` / `from_dec_string`),
+  that EVERY header name of the `header_field::id` enumeration (table regenerated from the header on every run) is
+  accepted by the header-name acceptor and lower-cases to its `lowercase_name`, and that a chunk header built by
+  the encoder is parsed back with the same size and extension.
+-/
 namespace Via
+namespace C08
+
+theorem hexDigitVal_lowHex : ∀ d : Fin 16, hexDigitVal (lowHex d.val) = d.val := by decide
+theorem isXDigit_lowHex : ∀ d : Fin 16, isXDigit (lowHex d.val) = true := by decide
+theorem isDigit_lowHex : ∀ d : Fin 10, isDigit (lowHex d.val) = true := by decide
+
+theorem digitsVal_snoc (base : Nat) (ds : Bytes) (c : Byte) :
+    digitsVal base (ds ++ [c]) = digitsVal base ds * base + hexDigitVal c := by
+  simp [digitsVal, List.foldl_append]
+
+/-- what `toDigitsAux` produces when the fuel is sufficient -/
+theorem toDigitsAux_spec (base : Nat) (hb : 2 ≤ base) (hb16 : base ≤ 16) :
+    ∀ (fuel n : Nat) (acc : Bytes), n < fuel →
+      ∃ ds, toDigitsAux base hb fuel n acc = ds ++ acc ∧ ds ≠ [] ∧
+        (∀ c ∈ ds, ∃ d, d < base ∧ c = lowHex d) ∧ digitsVal base ds = n := by
+  intro fuel
+  induction fuel with
+  | zero => intro n acc h; omega
+  | succ fuel ih =>
+    intro n acc hf
+    unfold toDigitsAux
+    by_cases hn : n < base
+    · refine ⟨[lowHex n], by simp [hn], by simp, ?_, ?_⟩
+      · intro c hc
+        exact ⟨n, hn, by simpa using hc⟩
+      · have := hexDigitVal_lowHex ⟨n, by omega⟩
+        simpa [digitsVal] using this
+    · have hpos : 0 < base := by omega
+      have hdiv : n / base < n := Nat.div_lt_self (by omega) (by omega)
+      obtain ⟨ds, h1, _, h3, h4⟩ := ih (n / base) (lowHex (n % base) :: acc) (by omega)
+      have hmod : n % base < base := Nat.mod_lt _ hpos
+      refine ⟨ds ++ [lowHex (n % base)], by simp [hn, h1], by simp, ?_, ?_⟩
+      · intro c hc
+        rcases List.mem_append.mp hc with hc | hc
+        · exact h3 c hc
+        · exact ⟨n % base, hmod, by simpa using hc⟩
+      · rw [digitsVal_snoc, h4]
+        have := hexDigitVal_lowHex ⟨n % base, by omega⟩
+        simp only at this
+        rw [this]
+        exact Nat.div_add_mod' n base
+
+/-- length bound -/
+theorem toDigitsAux_length (base : Nat) (hb : 2 ≤ base) :
+    ∀ (fuel n : Nat) (acc : Bytes) (k : Nat), n < base ^ (k + 1) →
+      (toDigitsAux base hb fuel n acc).length ≤ k + 1 + acc.length := by
+  intro fuel
+  induction fuel with
+  | zero => intro n acc k _; simp [toDigitsAux]
+  | succ fuel ih =>
+    intro n acc k hk
+    unfold toDigitsAux
+    by_cases hn : n < base
+    · simp [hn]; omega
+    · simp only [hn, if_false]
+      cases k with
+      | zero => simp at hk; omega
+      | succ k =>
+        have : n / base < base ^ (k + 1) := by
+          apply Nat.div_lt_of_lt_mul
+          rw [Nat.pow_succ, Nat.mul_comm] at hk
+          exact hk
+        have := ih (n / base) (lowHex (n % base) :: acc) k this
+        simp at this ⊢
+        omega
+
+theorem hex_digits (n : Nat) :
+    toHexString n ≠ [] ∧ (toHexString n).all isXDigit = true ∧ digitsVal 16 (toHexString n) = n := by
+  obtain ⟨ds, h1, h2, h3, h4⟩ := toDigitsAux_spec 16 (by decide) (by decide) (n + 1) n [] (by omega)
+  have : toHexString n = ds := by simpa [toHexString] using h1
+  rw [this]
+  refine ⟨h2, ?_, h4⟩
+  rw [List.all_eq_true]
+  intro c hc
+  obtain ⟨d, hd, rfl⟩ := h3 c hc
+  exact isXDigit_lowHex ⟨d, hd⟩
+
+theorem dec_digits (n : Nat) :
+    toDecString n ≠ [] ∧ (toDecString n).all isDigit = true ∧ digitsVal 10 (toDecString n) = n := by
+  obtain ⟨ds, h1, h2, h3, h4⟩ := toDigitsAux_spec 10 (by decide) (by decide) (n + 1) n [] (by omega)
+  have : toDecString n = ds := by simpa [toDecString] using h1
+  rw [this]
+  refine ⟨h2, ?_, h4⟩
+  rw [List.all_eq_true]
+  intro c hc
+  obtain ⟨d, hd, rfl⟩ := h3 c hc
+  exact isDigit_lowHex ⟨d, hd⟩
+
+theorem hex_length (n : Nat) (h : n ≤ LONG_MAX) : (toHexString n).length ≤ 16 := by
+  have := toDigitsAux_length 16 (by decide) (n + 1) n [] 15 (by simp [LONG_MAX] at h ⊢; omega)
+  simpa [toHexString] using this
+
+theorem fromHex_of_digits (ds : Bytes) (n : Nat) (h : n ≤ LONG_MAX) (h1 : ds ≠ [])
+    (h2 : ds.all isXDigit = true) (h3 : digitsVal 16 ds = n) : fromHexString ds = (n : Int) := by
+  unfold fromHexString
+  have : ds.isEmpty = false := by simpa using h1
+  simp only [this, h2, h3]
+  simp [Nat.not_lt.mpr h]
+
+end C08
+
+theorem hex_roundtrip (n : Nat) (h : n ≤ LONG_MAX) : fromHexString (toHexString n) = (n : Int) := by
+  obtain ⟨h1, h2, h3⟩ := C08.hex_digits n
+  exact C08.fromHex_of_digits _ n h h1 h2 h3
+
+theorem dec_roundtrip (n : Nat) (h : n ≤ LONG_MAX) : fromDecString (toDecString n) = (n : Int) := by
+  obtain ⟨h1, h2, h3⟩ := C08.dec_digits n
+  unfold fromDecString
+  have : (toDecString n).isEmpty = false := by simpa using h1
+  simp only [this, h2, h3]
+  simp [Nat.not_lt.mpr h]
+
+/-- a byte the `field_line` parser accepts in a header name -/
+def nameByteOk (c : Byte) : Bool := isGraph c && !isSeparator c
+
+/-- every standard header name is a valid field name for the library's own parser, and parses to the lower-case
+    name the library looks it up by (this re-opens whenever a header constant is edited) -/
+theorem std_names_parse :
+    ∀ p ∈ Gen.headerNames, p.1.all nameByteOk = true ∧ p.1.map toLower = p.2 ∧ p.1 ≠ [] := by
+  decide
+
+/-- the names the library adds by itself -/
+theorem own_headers_parse :
+    Gen.cHEADER_CONTENT_LENGTH.all nameByteOk = true ∧ Gen.cHEADER_TRANSFER_ENCODING.all nameByteOk = true ∧
+    Gen.cHEADER_CONTENT_LENGTH.map toLower = Gen.cLC_CONTENT_LENGTH ∧
+    Gen.cHEADER_TRANSFER_ENCODING.map toLower = Gen.cLC_TRANSFER_ENCODING ∧
+    Gen.cHEADER_DATE.all nameByteOk = true ∧ Gen.cHEADER_SERVER.all nameByteOk = true ∧
+    Gen.cHEADER_CONTENT_TYPE.all nameByteOk = true ∧ Gen.cHEADER_ALLOW.all nameByteOk = true ∧
+    Gen.cHEADER_WWW_AUTHENTICATE.all nameByteOk = true ∧ Gen.cHEADER_HOST.all nameByteOk = true := by
+  decide
+
+
+namespace C08
+
+theorem byte_cases (P : Byte → Prop) (h : ∀ i : Fin 256, P (UInt8.ofNat i.val)) (c : Byte) : P c := by
+  have := h ⟨c.toNat, c.toNat_lt⟩
+  simpa using this
+
+theorem xdigit_facts (c : Byte) :
+    isXDigit c = true → isBlank c = false ∧ isEol c = false ∧ (c == 59) = false := by
+  revert c
+  apply byte_cases
+  set_option maxRecDepth 100000 in decide
+
+/-- the size phase: hex digits are accumulated -/
+theorem loop_size (cfg : Cfg) (rest : Bytes) :
+    ∀ (ds h : Bytes) (L : Nat), (∀ c ∈ ds, isXDigit c = true) →
+      h.length + ds.length ≤ Gen.maxSizeDigits → L + ds.length ≤ cfg.maxLine →
+      CH.loop cfg ⟨0, L, 0, h, [], .size, false, false, false⟩ (ds ++ rest) =
+      CH.loop cfg ⟨0, L + ds.length, 0, h ++ ds, [], .size, false, false, false⟩ rest := by
+  intro ds
+  induction ds with
+  | nil => intro h L _ _ _; simp
+  | cons d ds ih =>
+    intro h L hx hsz hl
+    have hd : isXDigit d = true := hx d (by simp)
+    have h1 : ¬ (cfg.maxLine < L + 1) := by simp at hl; omega
+    have h2 : ¬ (Gen.maxSizeDigits < h.length + 1) := by simp at hsz ⊢; omega
+    have := ih (h ++ [d]) (L + 1) (fun c hc => hx c (by simp [hc])) (by simp at hsz ⊢; omega)
+      (by simp at hl ⊢; omega)
+    simp only [List.cons_append, CH.loop, CH.parseChar, CH.sizeStep]
+    simp [h1, hd, h2]
+    rw [this]
+    simp [Nat.add_assoc, Nat.add_comm 1]
+
+/-- the first digit, from the initial state -/
+theorem loop_first (cfg : Cfg) (d : Byte) (rest : Bytes) (hd : isXDigit d = true)
+    (hsz : 1 ≤ Gen.maxSizeDigits) (hl : 1 ≤ cfg.maxLine) :
+    CH.loop cfg {} (d :: rest) = CH.loop cfg ⟨0, 1, 0, [d], [], .size, false, false, false⟩ rest := by
+  obtain ⟨hb, _, _⟩ := xdigit_facts d hd
+  have h1 : ¬ (cfg.maxLine < 1) := by omega
+  have h2 : ¬ (Gen.maxSizeDigits < 1) := by omega
+  simp only [CH.loop, CH.parseChar, CH.sizeStep]
+  simp [h1, hd, h2, hb]
+
+/-- CR LF after the size -/
+theorem loop_size_crlf (cfg : Cfg) (h : Bytes) (L n : Nat) (hn : chunkSizeOf h = n) (hc : n ≤ cfg.maxChunk)
+    (hl : L + 2 ≤ cfg.maxLine) :
+    CH.loop cfg ⟨0, L, 0, h, [], .size, false, false, false⟩ [13, 10] =
+      (⟨n, L + 2, 0, h, [], .valid, true, false, false⟩, [], false) := by
+  have h1 : ¬ (cfg.maxLine < L + 1) := by omega
+  have h2 : ¬ (cfg.maxLine < L + 1 + 1) := by omega
+  have h3 : ¬ (cfg.maxChunk < n) := by omega
+  have e1 : isXDigit 13 = false := by decide
+  have e2 : isEol 13 = true := by decide
+  simp only [CH.loop, CH.parseChar, CH.sizeStep]
+  simp [h1, h2, h3, e1, e2, hn]
+
+
+/-- the extension phase: bytes that are not line ends are accumulated -/
+theorem loop_ext (cfg : Cfg) (rest h : Bytes) (n w : Nat) :
+    ∀ (es x : Bytes) (L : Nat), (∀ c ∈ es, isEol c = false) → L + es.length ≤ cfg.maxLine →
+      CH.loop cfg ⟨n, L, w, h, x, .extension, true, false, false⟩ (es ++ rest) =
+      CH.loop cfg ⟨n, L + es.length, w, h, x ++ es, .extension, true, false, false⟩ rest := by
+  intro es
+  induction es with
+  | nil => intro x L _ _; simp
+  | cons e es ih =>
+    intro x L hx hl
+    have he : isEol e = false := hx e (by simp)
+    have h1 : ¬ (cfg.maxLine < L + 1) := by simp at hl; omega
+    have := ih (x ++ [e]) (L + 1) (fun c hc => hx c (by simp [hc])) (by simp at hl ⊢; omega)
+    simp only [List.cons_append, CH.loop, CH.parseChar, CH.extStep]
+    simp [h1, he]
+    rw [this]
+    simp [Nat.add_assoc, Nat.add_comm 1]
+
+/-- `"; "` and the first extension byte after the size -/
+theorem loop_size_semi (cfg : Cfg) (h rest : Bytes) (e : Byte) (L n : Nat) (hn : chunkSizeOf h = n)
+    (hc : n ≤ cfg.maxChunk) (hws : 1 ≤ cfg.maxWs) (he : isEol e = false) (hb : isBlank e = false)
+    (hl : L + 3 ≤ cfg.maxLine) :
+    CH.loop cfg ⟨0, L, 0, h, [], .size, false, false, false⟩ (59 :: 32 :: e :: rest) =
+      CH.loop cfg ⟨n, L + 3, 1, h, [e], .extension, true, false, false⟩ rest := by
+  have h1 : ¬ (cfg.maxLine < L + 1) := by omega
+  have h2 : ¬ (cfg.maxLine < L + 1 + 1) := by omega
+  have h2' : ¬ (cfg.maxLine < L + 1 + 1 + 1) := by omega
+  have h3 : ¬ (cfg.maxChunk < n) := by omega
+  have h4 : ¬ (cfg.maxWs < 1) := by omega
+  have e1 : isXDigit 59 = false := by decide
+  have e2 : isBlank 32 = true := by decide
+  simp only [CH.loop, CH.parseChar, CH.sizeStep, CH.extStep]
+  simp [h1, h2, h2', h3, h4, e1, e2, hn, he, hb]
+
+/-- CR LF after the extension -/
+theorem loop_ext_crlf (cfg : Cfg) (h x : Bytes) (L n w : Nat) (hl : L + 2 ≤ cfg.maxLine) :
+    CH.loop cfg ⟨n, L, w, h, x, .extension, true, false, false⟩ [13, 10] =
+      (⟨n, L + 2, w, h, x, .valid, true, false, false⟩, [], false) := by
+  have h1 : ¬ (cfg.maxLine < L + 1) := by omega
+  have h2 : ¬ (cfg.maxLine < L + 1 + 1) := by omega
+  have e2 : isEol 13 = true := by decide
+  simp only [CH.loop, CH.parseChar, CH.extStep]
+  simp [h1, h2, e2]
+
+theorem chunkSizeOf_hex (n : Nat) (h : n ≤ LONG_MAX) : chunkSizeOf (toHexString n) = n := by
+  obtain ⟨h1, h2, h3⟩ := hex_digits n
+  simp [chunkSizeOf, fromHex_of_digits _ n h h1 h2 h3]
+  omega
+
+end C08
+
+/-- a chunk header produced by `chunk_header::to_string` is accepted by `chunk_header::parse` with the same size
+    and extension, for every size within the receiver's limit and every extension without line breaks that does
+    not start with a blank, provided the line fits the line-length limit -/
+theorem chunk_header_roundtrip (cfg : Cfg) (n : Nat) (ext : Bytes)
+    (hn : n ≤ cfg.maxChunk) (hmax : n ≤ LONG_MAX) (hsz : Gen.maxSizeDigits = 16)
+    (hext : ∀ c ∈ ext, isEol c = false) (hlead : ∀ c, ext.head? = some c → isBlank c = false)
+    (hws : 1 ≤ cfg.maxWs) (hline : (Enc.chunkHeader n ext).length ≤ cfg.maxLine) :
+    let r := CH.parse cfg {} (Enc.chunkHeader n ext)
+    r.2.2 = true ∧ r.2.1 = [] ∧ r.1.size = n ∧ r.1.ext = ext := by
+  obtain ⟨h1, h2, _⟩ := C08.hex_digits n
+  have hlen := C08.hex_length n hmax
+  have hcs := C08.chunkSizeOf_hex n hmax
+  rw [List.all_eq_true] at h2
+  generalize hds : toHexString n = ds at h1 h2 hlen hcs
+  cases ds with
+  | nil => exact absurd rfl h1
+  | cons d ds =>
+    have hdx : isXDigit d = true := h2 d (by simp)
+    have hdsx : ∀ c ∈ ds, isXDigit c = true := fun c hc => h2 c (by simp [hc])
+    cases ext with
+    | nil =>
+      have hE : Enc.chunkHeader n [] = d :: (ds ++ [13, 10]) := by
+        simp [Enc.chunkHeader, hds, Enc.crlf, Gen.cCRLF]
+      rw [hE] at hline
+      simp at hline hlen
+      intro r
+      have hr : r = CH.parse cfg {} (d :: (ds ++ [13, 10])) := by rw [← hE]
+      rw [hr]
+      unfold CH.parse
+      rw [C08.loop_first cfg d _ hdx (by omega) (by omega),
+        C08.loop_size cfg [13, 10] ds [d] 1 hdsx (by simp; omega) (by omega),
+        C08.loop_size_crlf cfg ([d] ++ ds) _ n hcs hn (by omega)]
+      simp
+    | cons e es =>
+      have hE : Enc.chunkHeader n (e :: es) = d :: (ds ++ 59 :: 32 :: e :: (es ++ [13, 10])) := by
+        simp [Enc.chunkHeader, hds, Enc.crlf, Gen.cCRLF]
+      rw [hE] at hline
+      simp at hline hlen
+      have heb : isBlank e = false := hlead e rfl
+      have hee : isEol e = false := hext e (by simp)
+      have hes : ∀ c ∈ es, isEol c = false := fun c hc => hext c (by simp [hc])
+      intro r
+      have hr : r = CH.parse cfg {} (d :: (ds ++ 59 :: 32 :: e :: (es ++ [13, 10]))) := by rw [← hE]
+      rw [hr]
+      unfold CH.parse
+      rw [C08.loop_first cfg d _ hdx (by omega) (by omega),
+        C08.loop_size cfg _ ds [d] 1 hdsx (by simp; omega) (by omega),
+        C08.loop_size_semi cfg ([d] ++ ds) _ e _ n hcs hn hws hee heb (by omega),
+        C08.loop_ext cfg _ _ _ _ es [e] _ hes (by omega),
+        C08.loop_ext_crlf cfg _ _ _ _ _ (by omega)]
+      simp
+
 end Via
